@@ -191,6 +191,8 @@ struct Lock<'a> {
     budget: u64,
     nodes: u64,
     local: Counters,
+    /// C03 only: ask the live board (not a clone) for the legal moves before each move
+    live_queries: bool,
 }
 
 #[derive(Default)]
@@ -279,6 +281,7 @@ impl<'a> Lock<'a> {
             budget,
             nodes: 0,
             local: Counters::default(),
+            live_queries: false,
         })
     }
 
@@ -327,6 +330,17 @@ impl<'a> Lock<'a> {
         let oc = eng::oracle_codes(&p);
         let mut b2 = self.b.clone();
         let ec = eng::legal_codes(&mut b2);
+        // asking the same board a second time must give the same answer (a query that leaves
+        // something behind would show here, not in a walk that always moves on)
+        let ec2 = eng::legal_codes(&mut b2);
+        if ec2 != ec {
+            let missing: Vec<String> = ec.iter().filter(|c| !ec2.contains(c)).map(|c| describe_code(*c)).collect();
+            let extra: Vec<String> = ec2.iter().filter(|c| !ec.contains(c)).map(|c| describe_code(*c)).collect();
+            self.viol(
+                "second-query-differs",
+                format!("asking the same board twice gives different legal moves: second answer lacks [{}] and adds [{}]", missing.join(" "), extra.join(" ")),
+            );
+        }
         let w_e = self.b.is_in_check(Color::White);
         let b_e = self.b.is_in_check(Color::Black);
         let w_o = p.in_check(0);
@@ -529,6 +543,8 @@ impl<'a> Lock<'a> {
     /// 288 distinct keys; and on 8 sampled squares all 13 contents must give 13 distinct keys.
     fn c05_block(&mut self, p: &Pos) {
         let mut seen: HashMap<u64, String> = HashMap::new();
+        let played_key = key_u64(self.b.zkey);
+        let played_ident = p.ident();
         for stm in 0..2u8 {
             for castle in 0..16u8 {
                 for ep in -1..8i8 {
@@ -546,6 +562,15 @@ impl<'a> Lock<'a> {
                         continue;
                     };
                     let k = key_u64(b.zkey);
+                    // the key the engine is actually using for the position on the board (maintained
+                    // incrementally) must not be the key of one of its neighbours
+                    if k == played_key && q.ident() != played_ident {
+                        let comp = component_diff(p, &q);
+                        self.viol(
+                            &format!("collision-played-vs-neighbour-{comp}"),
+                            format!("the position reached by play has key {played_key}, which is the key of the different position '{fen}'"),
+                        );
+                    }
                     if let Some(prev) = seen.insert(k, fen.clone()) {
                         let comp = component_diff(&Pos::from_fen(&prev).unwrap(), &q);
                         self.viol(
@@ -805,7 +830,9 @@ impl<'a> Lock<'a> {
 
     // ------------------------------------------------------------------ C07
     fn c07_node(&mut self) {
-        if self.nodes % 3 != 0 {
+        // always at the root of a job (so the start position and every corpus seed get their
+        // counter / rights / ep overlays), otherwise every third node
+        if self.nodes % 3 != 0 && !self.path.is_empty() {
             return;
         }
         let p = self.p().clone();
@@ -1003,7 +1030,11 @@ impl<'a> Lock<'a> {
 
     /// plays one move (oracle-chosen); false if impossible
     fn step(&mut self, m: &Mv) -> bool {
-        let plies = if self.prop == Prop::C02 {
+        let plies = if self.prop == Prop::C03 && self.live_queries {
+            // the way the engine's own `position` command applies a move list: find the move among
+            // the legal moves of the live board, then make it
+            self.b.get_legal_moves()
+        } else if self.prop == Prop::C02 {
             let snap = self.b.clone();
             let l = self.b.get_legal_moves();
             if self.b != snap {
@@ -1028,6 +1059,10 @@ impl<'a> Lock<'a> {
 
     fn game(&mut self, stream: u64, max_plies: u32, seed: u64) {
         let mut rng = Rng::derive(seed, stream);
+        self.live_queries = stream % 2 == 1;
+        if self.live_queries {
+            out::count("C03.games_with_live_board_queries", u64::from(self.prop == Prop::C03));
+        }
         self.local.games += 1;
         let probe_every = 3 + rng.below(4);
         let mut plies_played = 0u32;
